@@ -236,6 +236,48 @@ func runC04(em *vEmitter, r *vRng) {
 			}
 		}
 	}
+	// the saslauthd socket is a stream: the same requests delivered in several segments (cut inside the
+	// login, the password, the service, a length prefix; byte-wise), a few milliseconds apart
+	for ai, a := range accts[:6] {
+		for _, pw := range []string{a.pw, a.pw + "x"} {
+			if len(a.user) == 0 || len(pw) == 0 || len(a.user) > 256 || len(pw) > 256 {
+				continue
+			}
+			var msg []byte
+			for _, f := range []string{a.user, pw, "imap", "example.org"} {
+				msg = append(msg, byte(len(f)>>8), byte(len(f)))
+				msg = append(msg, f...)
+			}
+			cutSets := [][]int{{2 + len(a.user)/2 + 1}, {2 + len(a.user) + 2 + len(pw)/2 + 1}, {1}, {2 + len(a.user) + 1}, {len(msg) - 3}, {3, len(msg) - 2}}
+			if ai == 0 {
+				var all []int
+				for i := 1; i < len(msg); i++ {
+					all = append(all, i)
+				}
+				cutSets = append(cutSets, all) // byte-wise
+			}
+			for _, cuts := range cutSets {
+				conn, err := net.Dial("unix", sock)
+				if err != nil {
+					continue
+				}
+				prev := 0
+				for _, c := range append(cuts, len(msg)) {
+					if c <= prev || c > len(msg) {
+						continue
+					}
+					conn.Write(msg[prev:c])
+					prev = c
+					time.Sleep(4 * time.Millisecond)
+				}
+				conn.SetReadDeadline(time.Now().Add(5 * time.Second))
+				resp := &sasl.Response{}
+				derr := resp.Decode(conn)
+				conn.Close()
+				record("FSasl", q{a.user, pw}, derr == nil && resp.Result, "frontend-segmented/")
+			}
+		}
+	}
 	// a correct password is a correct password also when the hash upgrade its login triggers cannot be
 	// carried out (local upgrades, the record on a retired parameter set, '.tmp' a regular file so that no
 	// record can be rewritten; or a password policy the old password does not meet)
